@@ -90,7 +90,26 @@ class PrD(testequation0d):
     pass
 
 
-CLASSES = {c.__name__: c for c in (SwA, SwB, SwC, SwD, PrA, PrB, PrC, PrD)}
+from pySDC.core.collocation import CollBase  # noqa: E402
+
+
+class CoA(CollBase):
+    pass
+
+
+class CoB(CollBase):
+    pass
+
+
+class CoC(CollBase):
+    pass
+
+
+class CoD(CollBase):
+    pass
+
+
+CLASSES = {c.__name__: c for c in (SwA, SwB, SwC, SwD, PrA, PrB, PrC, PrD, CoA, CoB, CoC, CoD)}
 
 # ------------------------------------------------------------------------------------------------
 # A. grammar
@@ -107,10 +126,11 @@ ENTRIES = [
     ('sweeper_params.quad_type', ['RADAU-RIGHT', 'LOBATTO', 'GAUSS', 'RADAU-RIGHT']),
     ('sweeper_class', ['SwA', 'SwB', 'SwC', 'SwD']),
     ('problem_class', ['PrA', 'PrB', 'PrC', 'PrD']),
+    ('sweeper_params.collocation_class', ['CoA', 'CoB', 'CoC', 'CoD']),  # a user-defined collocation class (documented sweeper option)
     ('space_transfer_params', [{}, {}, {}, {}]),
     ('base_transfer_params', [{'finter': False}, {'finter': True}, {'finter': False}, {'finter': True}]),
 ]
-JUDGED = [e[0] for e in ENTRIES[:10]]  # the statement names problem, node and step-size parameters (and classes)
+JUDGED = [e[0] for e in ENTRIES[:11]]  # the statement names problem, node and step-size parameters (and classes)
 
 
 def entry_values(name, n):
@@ -124,7 +144,7 @@ def entry_values(name, n):
 def materialise(name, v):
     if name == 'problem_params.lambdas':
         return np.array(v)
-    if name in ('sweeper_class', 'problem_class'):
+    if name in ('sweeper_class', 'problem_class', 'sweeper_params.collocation_class'):
         return CLASSES[v]
     return v
 
@@ -166,6 +186,7 @@ def observe_level(Lv):
         'sweeper_params.quad_type': [Lv.sweep.params.quad_type, Lv.sweep.coll.quad_type],
         'sweeper_class': type(Lv.sweep).__name__,
         'problem_class': type(P).__name__,
+        'sweeper_params.collocation_class': type(Lv.sweep.coll).__name__,
     }
 
 
@@ -656,7 +677,7 @@ def run(rep, tier):
         {
             'evaluations': nA + nB + nC + nfrozen + nro + len(tcases),
             'distinct_nontrivial': multi + (nB - len(BASES)) + sum(1 for c in ccases if len(c[0]) >= 2),
-            'rule': 'A: every shape assignment (scalar | list of length 1..4) of the 12 list-capable entries with at most '
+            'rule': 'A: every shape assignment (scalar | list of length 1..4) of the 13 list-capable entries with at most '
             f'{2 if tier == "quick" else 3} list-valued entries, non-trivial iff some list has length >= 2 (several levels); '
             'B: every entry of the single-fault table of 7 valid bases (non-trivial: every fault; the 7 bases themselves are the over-rejection controls), '
             'every frozen object reachable from each base controller, every read-only parameter of every problem instance; '
